@@ -104,18 +104,18 @@ def ToggleFreePost (own : Owned) (R s n : Nat) : Res Unit → Owned → Prop
   | .error _, _ => False
 
 section
-variable (g : Geom)
+variable (g : Geom) (G : Owned → Prop)
 
 /-- the single-word update of `toggle` for orders 0..2: allocation -/
-theorem toggle_small_alloc_safe (own : Owned) (R s n : Nat) (hn : s + n ≤ 64) (hn64 : n ≤ 64) :
-    SafeR (ToggleAllocPost own R s n) own (do
+theorem toggle_small_alloc_safe (own : Owned) (R s n : Nat) (hn : s + n ≤ 64) (hn64 : n ≤ 64) (hG : G (addBits own R s n)) :
+    SafeR G (ToggleAllocPost own R s n) own (do
       let r ← tryUpdate .row R (fun (e : BitVec 64) =>
         if false then (if e &&& bitMask n s = bitMask n s then some (e &&& ~~~bitMask n s) else none)
         else (if e &&& bitMask n s = 0 then some (e ||| bitMask n s) else none))
       match r with
       | .ok _ => return .ok ()
       | .error _ => return .error .memory : Prog (Res Unit)) := by
-  show SafeR _ own (Prog.upd .row R _ _)
+  show SafeR G _ own (Prog.upd .row R _ _)
   intro cur hkn
   simp only [Bool.false_eq_true, if_false]
   by_cases hz : cur &&& bitMask n s = 0
@@ -129,7 +129,7 @@ theorem toggle_small_alloc_safe (own : Owned) (R s n : Nat) (hn : s + n ≤ 64) 
         have h3 := hkn b hb ho
         have h4 := hfree b (by rw [bitMask_getLsbD n s b hn64]; simp [h1, h2, hb])
         rw [h3] at h4; cases h4
-    refine ⟨addBits own R s n, ?_, rfl, hnone⟩
+    refine ⟨addBits own R s n, ?_, hG, rfl, hnone⟩
     apply Trans.claim_range own R s n cur _
     · intro b hb
       rw [getLsbD_or', bitMask_getLsbD n s b hn64]
@@ -146,15 +146,15 @@ theorem toggle_small_alloc_safe (own : Owned) (R s n : Nat) (hn : s + n ≤ 64) 
 
 /-- … and free of bits the thread holds: cannot fail -/
 theorem toggle_small_free_safe (own : Owned) (R s n : Nat) (hn : s + n ≤ 64) (hn64 : n ≤ 64)
-    (hown : ∀ b, b < 64 → s ≤ b → b < s + n → own (R * 64 + b) = true) :
-    SafeR (ToggleFreePost own R s n) own (do
+    (hown : ∀ b, b < 64 → s ≤ b → b < s + n → own (R * 64 + b) = true) (hG : G (subBits own R s n)) :
+    SafeR G (ToggleFreePost own R s n) own (do
       let r ← tryUpdate .row R (fun (e : BitVec 64) =>
         if true then (if e &&& bitMask n s = bitMask n s then some (e &&& ~~~bitMask n s) else none)
         else (if e &&& bitMask n s = 0 then some (e ||| bitMask n s) else none))
       match r with
       | .ok _ => return .ok ()
       | .error _ => return .error .memory : Prog (Res Unit)) := by
-  show SafeR _ own (Prog.upd .row R _ _)
+  show SafeR G _ own (Prog.upd .row R _ _)
   intro cur hk
   simp only [if_true]
   have hset : ∀ b, b < 64 → s ≤ b → b < s + n → cur.getLsbD b = true := fun b hb h1 h2 => hk b hb (hown b hb h1 h2)
@@ -165,7 +165,7 @@ theorem toggle_small_free_safe (own : Owned) (R s n : Nat) (hn : s + n ≤ 64) (
     simp only [Bool.and_eq_true, decide_eq_true_eq] at hb
     exact hset b hb.2 hb.1.1 hb.1.2
   simp only [hall, if_true, Upd.ofOption]
-  refine ⟨subBits own R s n, ?_, rfl⟩
+  refine ⟨subBits own R s n, ?_, hG, rfl⟩
   apply Trans.release_range own R s n cur _ _ hown hset
   intro b hb
   rw [getLsbD_and_not, bitMask_getLsbD n s b hn64]
@@ -176,11 +176,11 @@ theorem toggle_small_free_safe (own : Owned) (R s n : Nat) (hn : s + n ≤ 64) (
     rw [this, if_neg hr]; simp
 
 /-- the narrow compare-exchange of `toggle_int` (orders 3..6): allocation -/
-theorem toggle_int_alloc_safe (own : Owned) (R sh w : Nat) (hw : w ≤ 64) (hsh : sh + w ≤ 64) :
-    SafeR (ToggleAllocPost own R sh w) own (do
+theorem toggle_int_alloc_safe (own : Owned) (R sh w : Nat) (hw : w ≤ 64) (hsh : sh + w ≤ 64) (hG : G (addBits own R sh w)) :
+    SafeR G (ToggleAllocPost own R sh w) own (do
       let ok ← casPartK R sh w (0 : BitVec 64) (~~~(0 : BitVec 64))
       return if ok then .ok () else .error .memory : Prog (Res Unit)) := by
-  show SafeR _ own (Prog.casPart R sh w _ _ _)
+  show SafeR G _ own (Prog.casPart R sh w _ _ _)
   intro cur hkn
   refine ⟨fun r hr => ?_, fun _ => ⟨rfl, rfl⟩⟩
   obtain ⟨h1, h2⟩ := casPartVal_some cur sh w _ _ r hw hr
@@ -193,7 +193,7 @@ theorem toggle_int_alloc_safe (own : Owned) (R sh w : Nat) (hw : w ≤ 64) (hsh 
       have h4 := h1 (b - sh) (by omega)
       rw [show sh + (b - sh) = b by omega, h3] at h4
       simp at h4
-  refine ⟨addBits own R sh w, ?_, rfl, hnone⟩
+  refine ⟨addBits own R sh w, ?_, hG, rfl, hnone⟩
   apply Trans.claim_range own R sh w cur r
   · intro b hb
     rw [h2 b]
@@ -212,16 +212,16 @@ theorem toggle_int_alloc_safe (own : Owned) (R sh w : Nat) (hw : w ≤ 64) (hsh 
 
 /-- … and free of bits the thread holds -/
 theorem toggle_int_free_safe (own : Owned) (R sh w : Nat) (hw : w ≤ 64) (hsh : sh + w ≤ 64)
-    (hown : ∀ b, b < 64 → sh ≤ b → b < sh + w → own (R * 64 + b) = true) :
-    SafeR (ToggleFreePost own R sh w) own (do
+    (hown : ∀ b, b < 64 → sh ≤ b → b < sh + w → own (R * 64 + b) = true) (hG : G (subBits own R sh w)) :
+    SafeR G (ToggleFreePost own R sh w) own (do
       let ok ← casPartK R sh w (lowMask w) (~~~(lowMask w))
       return if ok then .ok () else .error .memory : Prog (Res Unit)) := by
-  show SafeR _ own (Prog.casPart R sh w _ _ _)
+  show SafeR G _ own (Prog.casPart R sh w _ _ _)
   intro cur hk
   have hset : ∀ b, b < 64 → sh ≤ b → b < sh + w → cur.getLsbD b = true := fun b hb h1 h2 => hk b hb (hown b hb h1 h2)
   refine ⟨fun r hr => ?_, fun hn => ?_⟩
   · obtain ⟨_, h2⟩ := casPartVal_some cur sh w _ _ r hw hr
-    refine ⟨subBits own R sh w, ?_, rfl⟩
+    refine ⟨subBits own R sh w, ?_, hG, rfl⟩
     apply Trans.release_range own R sh w cur r _ hown hset
     intro b hb
     rw [h2 b]
@@ -329,12 +329,13 @@ def FreeRowsPost (own0 : Owned) (R0 K : Nat) : Res Unit → Owned → Prop
   | .error _, _ => False
 
 section
-variable (g : Geom)
+variable (g : Geom) (G : Owned → Prop)
 
 /-- the roll-back of a multi-row allocation never panics and returns exactly what was claimed -/
 theorem toggle_undo_alloc_safe (own0 : Owned) (h di : Nat) (k : Nat) (hfit : di + k ≤ g.rows)
-    (hdis : ∀ x, x < k → ∀ b, b < 64 → own0 ((h * g.rows + di + x) * 64 + b) = false) :
-    SafeR (fun (_ : Unit) o => o = own0) (addRows own0 (h * g.rows + di) k) (Bitfield.toggle.undo g h (0 : BitVec 64) k (di + k)) := by
+    (hdis : ∀ x, x < k → ∀ b, b < 64 → own0 ((h * g.rows + di + x) * 64 + b) = false)
+    (hG : ∀ j, j ≤ k → G (addRows own0 (h * g.rows + di) j)) :
+    SafeR G (fun (_ : Unit) o => o = own0) (addRows own0 (h * g.rows + di) k) (Bitfield.toggle.undo g h (0 : BitVec 64) k (di + k)) := by
   induction k with
   | zero =>
     unfold Bitfield.toggle.undo
@@ -346,7 +347,7 @@ theorem toggle_undo_alloc_safe (own0 : Owned) (h di : Nat) (k : Nat) (hfit : di 
       simp only [rowIdx]
       rw [show di + (k + 1) - 1 = di + k by omega, Nat.mod_eq_of_lt (by omega)]; omega
     rw [hidx, not_zero_eq]
-    show SafeR _ _ (Prog.cas .row _ _ _ _)
+    show SafeR G _ _ (Prog.cas .row _ _ _ _)
     intro cur hk
     have hcur : cur = rowMax := by
       apply known_all _ _ cur hk
@@ -355,15 +356,16 @@ theorem toggle_undo_alloc_safe (own0 : Owned) (h di : Nat) (k : Nat) (hfit : di 
       have e1 : ((h * g.rows + di + k) * 64 + b) / 64 = h * g.rows + di + k := by omega
       simp [e1]
     refine ⟨fun _ => ?_, fun hne => absurd hcur hne⟩
-    refine ⟨addRows own0 (h * g.rows + di) k, Trans.unclaim_row own0 _ k (hdis k (by omega)), ?_⟩
+    refine ⟨addRows own0 (h * g.rows + di) k, Trans.unclaim_row own0 _ k (hdis k (by omega)), hG k (by omega), ?_⟩
     simp only
     rw [show di + (k + 1) - 1 = di + k by omega]
-    exact ih (by omega) (fun x hx => hdis x (by omega))
+    exact ih (by omega) (fun x hx => hdis x (by omega)) (fun j hj => hG j (by omega))
 
 /-- the row loop of a multi-row allocation -/
 theorem toggle_go_alloc_safe (own0 : Owned) (h di K : Nat) (hfit : di + K ≤ g.rows) (cnt k : Nat) (hk : k + cnt = K)
-    (hdis : ∀ x, x < k → ∀ b, b < 64 → own0 ((h * g.rows + di + x) * 64 + b) = false) :
-    SafeR (AllocRowsPost own0 (h * g.rows + di) K) (addRows own0 (h * g.rows + di) k)
+    (hdis : ∀ x, x < k → ∀ b, b < 64 → own0 ((h * g.rows + di + x) * 64 + b) = false)
+    (hG : ∀ j, j ≤ K → G (addRows own0 (h * g.rows + di) j)) :
+    SafeR G (AllocRowsPost own0 (h * g.rows + di) K) (addRows own0 (h * g.rows + di) k)
       (Bitfield.toggle.go g h di (0 : BitVec 64) cnt (di + k)) := by
   induction cnt generalizing k with
   | zero =>
@@ -376,7 +378,7 @@ theorem toggle_go_alloc_safe (own0 : Owned) (h di K : Nat) (hfit : di + K ≤ g.
     have hidx : rowIdx g h ((di + k) % g.rows) = h * g.rows + di + k := by
       simp only [rowIdx]; rw [Nat.mod_eq_of_lt (by omega)]; omega
     rw [hidx, not_zero_eq]
-    show SafeR _ _ (Prog.cas .row _ _ _ _)
+    show SafeR G _ _ (Prog.cas .row _ _ _ _)
     intro cur hkn
     refine ⟨fun he => ?_, fun _ => ?_⟩
     · subst he
@@ -387,7 +389,7 @@ theorem toggle_go_alloc_safe (own0 : Owned) (h di K : Nat) (hfit : di + K ≤ g.
         cases ho : own0 ((h * g.rows + di + k) * 64 + b) with
         | false => rfl
         | true => rw [ho] at this; simp at this
-      refine ⟨addRows own0 (h * g.rows + di) (k + 1), Trans.claim_row own0 _ k, ?_⟩
+      refine ⟨addRows own0 (h * g.rows + di) (k + 1), Trans.claim_row own0 _ k, hG (k + 1) (by omega), ?_⟩
       simp only
       rw [show di + k + 1 = di + (k + 1) by omega]
       apply ih (k + 1) (by omega)
@@ -397,14 +399,15 @@ theorem toggle_go_alloc_safe (own0 : Owned) (h di K : Nat) (hfit : di + K ≤ g.
       · exact hdis x (by omega) b hb
     · simp only
       rw [show di + k - di = k by omega]
-      apply SafeR.bind _ _ _ (toggle_undo_alloc_safe g own0 h di k (by omega) hdis)
+      apply SafeR.bind _ _ _ (toggle_undo_alloc_safe g G own0 h di k (by omega) hdis (fun j hj => hG j (by omega)))
       rintro _ o rfl
       exact ⟨rfl, rfl⟩
 
 /-- the row loop of a multi-row free of rows the thread holds: always succeeds -/
 theorem toggle_go_free_safe (own0 : Owned) (h di K : Nat) (hfit : di + K ≤ g.rows)
-    (hown : ∀ x, x < K → ∀ b, b < 64 → own0 ((h * g.rows + di + x) * 64 + b) = true) (cnt k : Nat) (hk : k + cnt = K) :
-    SafeR (FreeRowsPost own0 (h * g.rows + di) K) (subRows own0 (h * g.rows + di) k)
+    (hown : ∀ x, x < K → ∀ b, b < 64 → own0 ((h * g.rows + di + x) * 64 + b) = true) (cnt k : Nat) (hk : k + cnt = K)
+    (hG : ∀ j, j ≤ K → G (subRows own0 (h * g.rows + di) j)) :
+    SafeR G (FreeRowsPost own0 (h * g.rows + di) K) (subRows own0 (h * g.rows + di) k)
       (Bitfield.toggle.go g h di rowMax cnt (di + k)) := by
   induction cnt generalizing k with
   | zero =>
@@ -416,7 +419,7 @@ theorem toggle_go_free_safe (own0 : Owned) (h di K : Nat) (hfit : di + K ≤ g.r
     have hidx : rowIdx g h ((di + k) % g.rows) = h * g.rows + di + k := by
       simp only [rowIdx]; rw [Nat.mod_eq_of_lt (by omega)]; omega
     rw [hidx, not_rowMax_eq]
-    show SafeR _ _ (Prog.cas .row _ _ _ _)
+    show SafeR G _ _ (Prog.cas .row _ _ _ _)
     intro cur hkn
     have hcur : cur = rowMax := by
       apply known_all _ _ cur hkn
@@ -426,7 +429,7 @@ theorem toggle_go_free_safe (own0 : Owned) (h di K : Nat) (hfit : di + K ≤ g.r
       rw [hown k (by omega) b hb]
       simp [e1]
     refine ⟨fun _ => ?_, fun hne => absurd hcur hne⟩
-    refine ⟨subRows own0 (h * g.rows + di) (k + 1), Trans.free_row own0 _ k (hown k (by omega)), ?_⟩
+    refine ⟨subRows own0 (h * g.rows + di) (k + 1), Trans.free_row own0 _ k (hown k (by omega)), hG (k + 1) (by omega), ?_⟩
     simp only
     rw [show di + k + 1 = di + (k + 1) by omega]
     exact ih (k + 1) (by omega)
